@@ -566,27 +566,16 @@ theorem assume_as_read_re_evicts_counterexample :
 example : (runC .afterWrite { w := lagWorld, ver := 5, olds := [], assumed := none } [.lagrec 0 0, .lagrec 1 0, .lagrec 3 0, .lagrec 0 0]).2.length = 1 := by
   decide
 
-/-! ### ext3 — the arbitrator and finished jobs (Model/C17Arb.lean) -/
+/-! ### ext3 — the arbitrator and finished jobs (Model/C17Arb.lean)
 
-/-- **OPEN (gated stream, fingerprint C17:terminal-phase-changed:arbitrator-after-restart).**  The full statement
-      ∀ history, once the persisted phase is Succeeded / Failed no arbitration round changes it
-    is FALSE for the shipped handler: after a controller restart the Create handler adds every existing job, and
-    `updateFailedJob` writes Phase=Failed with a copy that is current.  Witness: a Succeeded job, a pod of the target's
-    name exists, the non-retryable filter rejects it. -/
-theorem arbitrator_terminal_forever_counterexample :
-    ¬ (∀ (s : ArbS) (ops : List AOp), termPh s.phase = true → (arbRun false s ops).phase = s.phase) := by
-  intro h
-  have := h ⟨Ph.succeeded, 3, true, true, false, none, false⟩ [.add, .round] rfl
-  revert this
-  decide
+`arbStep true` is the shipped Create handler (it skips Succeeded / Failed / Aborted jobs — fix 2a5d178, tied by
+tie_create_handler_guard), `arbStep false` the handler before the fix (it added every job). -/
 
-/-- what does hold for the shipped arbitrator: a copy that predates the job's last write never changes the phase (the
-    API server refuses the stale write) — a job added while live and finished by the controller afterwards is safe -/
-theorem arbitrator_stale_copy_never_flips_partial (s : ArbS) (h : ∀ v, s.waiting = some v → v < s.ver) :
-    (arbRound s).phase = s.phase :=
-  arbRound_phase_of_stale s h
-
-/-- the candidate repair (Create handler skips Succeeded / Failed jobs) restores the clause over ALL histories -/
+/-- **arbitrator_terminal_forever** (the arbitrator's part of "a job that has reached succeeded or failed never changes
+    phase again", FULL clause): along EVERY history of Create events (controller restarts), controller status writes,
+    pod changes and arbitration rounds — whatever the filters answer — once the persisted phase is Succeeded / Failed it
+    never changes.  `ArbInv` = the arbitrator's copy is never newer than the job, and a finished job is either not
+    waiting or its copy predates the write that finished it; it holds for a fresh arbitrator and is kept by every step. -/
 theorem arbitrator_guarded_add_terminal_forever (ops : List AOp) :
     ∀ s : ArbS, ArbInv s → termPh s.phase = true → (arbRun true s ops).phase = s.phase := by
   induction ops with
@@ -597,7 +586,45 @@ theorem arbitrator_guarded_add_terminal_forever (ops : List AOp) :
     simp only [arbRun]
     rw [ih _ hi' (by rw [hp ht]; exact ht), hp ht]
 
-/-- `ArbInv` is not vacuous: a fresh arbitrator (nothing waiting) satisfies it for any job -/
+/-- … from the moment it is reached, anywhere inside any history that starts with a fresh arbitrator (nothing waiting) -/
+theorem arbitrator_terminal_forever (a b : List AOp) (ph ver : Nat) (pod nr rt passed : Bool)
+    (h : termPh (arbRun true ⟨ph, ver, pod, nr, rt, none, passed⟩ a).phase = true) :
+    (arbRun true ⟨ph, ver, pod, nr, rt, none, passed⟩ (a ++ b)).phase =
+      (arbRun true ⟨ph, ver, pod, nr, rt, none, passed⟩ a).phase := by
+  have hinv : ∀ (ops : List AOp) (s : ArbS), ArbInv s → ArbInv (arbRun true s ops) := by
+    intro ops
+    induction ops with
+    | nil => intro s hs; exact hs
+    | cons op rest ih => intro s hs; exact ih _ (arbStep_inv s op hs).1
+  have happ : ∀ (x y : List AOp) (s : ArbS), arbRun true s (x ++ y) = arbRun true (arbRun true s x) y := by
+    intro x
+    induction x with
+    | nil => intro y s; rfl
+    | cons op rest ih => intro y s; simp only [List.cons_append, arbRun]; exact ih y _
+  rw [happ]
+  exact arbitrator_guarded_add_terminal_forever b _
+    (hinv a _ ⟨fun _ hv => (by cases hv), fun _ _ hv => (by cases hv)⟩) h
+
+/-- why the guard is needed — the UNGUARDED handler shape (before 2a5d178; fingerprint
+    C17:terminal-phase-changed:arbitrator-after-restart, recorded `fixed`): the Create handler re-adds a Succeeded job
+    after a restart and `updateFailedJob` writes Phase=Failed with a copy that is current.  Witness: a Succeeded job, a
+    pod of the target's name exists, the non-retryable filter rejects it. -/
+theorem arbitrator_terminal_forever_counterexample :
+    ¬ (∀ (s : ArbS) (ops : List AOp), termPh s.phase = true → (arbRun false s ops).phase = s.phase) := by
+  intro h
+  have := h ⟨Ph.succeeded, 3, true, true, false, none, false⟩ [.add, .round] rfl
+  revert this
+  decide
+
+/-- independent of the guard: a copy that predates the job's last write never changes the phase (the API server
+    refuses the stale write) — a job added while live and finished by the controller afterwards was always safe -/
+theorem arbitrator_stale_copy_never_flips (s : ArbS) (h : ∀ v, s.waiting = some v → v < s.ver) :
+    (arbRound s).phase = s.phase :=
+  arbRound_phase_of_stale s h
+
+/-- the hypotheses are satisfiable and the conclusion is not vacuous: the very history of the counterexample, under the
+    shipped handler, leaves the Succeeded job alone -/
+example : (arbRun true ⟨Ph.succeeded, 3, true, true, false, none, false⟩ [.add, .round]).phase = Ph.succeeded := by decide
 example (ph ver : Nat) (pod nr rt : Bool) : ArbInv ⟨ph, ver, pod, nr, rt, none, false⟩ :=
   ⟨fun _ h => (by cases h), fun _ _ h => (by cases h)⟩
 
